@@ -5,12 +5,15 @@ pub mod c27;
 pub mod c28;
 pub mod c29;
 pub mod c41;
+pub mod wire;
 
 use crate::core::CheckDef;
 
 pub fn lookup(id: &str) -> Option<CheckDef> {
     Some(match id {
         "C20" => c20::def(),
+        "C21" => wire::def_c21(),
+        "C22" => wire::def_c22(),
         "C24" => c24::def(),
         "C25" => c25::def(),
         "C27" => c27::def(),
@@ -21,4 +24,4 @@ pub fn lookup(id: &str) -> Option<CheckDef> {
     })
 }
 
-pub const ALL: &[&str] = &["C20", "C24", "C25", "C27", "C28", "C29", "C41"];
+pub const ALL: &[&str] = &["C20", "C21", "C22", "C24", "C25", "C27", "C28", "C29", "C41"];
